@@ -875,6 +875,25 @@ def install(reg):
         return VBool(z3.Implies(z3.Select(has, KEY.KInt(it)), fact))
     SF["fileinfo_wellformed"] = s_fileinfo_wellformed
 
+    def s_recorded_length(p, fileinfo, i):
+        """the length a metafile records for file i (total reading)"""
+        mp = PV.dmap(p.dict_term(p.deref(fileinfo)))
+        e = z3.Select(mp, KEY.KInt(p.as_int(i)))
+        return VInt(PV.ival(z3.Select(PV.dmap(e), key_of_const("length"))))
+    SF["recorded_length"] = s_recorded_length
+
+    def s_recorded_hashes(p, fileinfo, layers, i, pl):
+        """the hashes a v2 metafile records for file i: its piece layer if it is larger than one piece, else its root (total reading)"""
+        mp = PV.dmap(p.dict_term(p.deref(fileinfo)))
+        it = p.as_int(i)
+        e = z3.Select(mp, KEY.KInt(it))
+        ln = PV.ival(z3.Select(PV.dmap(e), key_of_const("length")))
+        rt = z3.Select(PV.dmap(e), key_of_const("pieces root"))
+        lt = p.dict_term(p.deref(layers))
+        layer = z3.Select(PV.dmap(lt), key_of_pv(rt))
+        return VBox(z3.If(ln > p.as_int(pl), layer, rt))
+    SF["recorded_hashes"] = s_recorded_hashes
+
     def s_path_is_file(p, paths, i):
         fs = fs_of(p)
         h = p.deref(paths)
